@@ -261,11 +261,20 @@ class TrafficFilter:
         if is_external is not None:
             return is_external
 
-        if self._validate_ip(host_or_ip):
-            is_external = self._is_external_ip(host_or_ip)
+        try:
+            if self._validate_ip(host_or_ip):
+                is_external = self._is_external_ip(host_or_ip)
 
-        else:
-            is_external = self._is_external_domain(host_or_ip)
+            else:
+                is_external = self._is_external_domain(host_or_ip)
+
+        except ValueError as error:
+            # AddressValueError (IPv6 literal) and UnicodeError (IDNA) are ValueErrors:
+            # such destinations are not classified, hence not routed, and nothing is raised.
+            self._logger.warning(
+                f"TrafficFilter::Could not classify: '{host_or_ip}'. Error: {error}"
+            )
+            is_external = None
 
         if is_external is None:
             # For cases that we could not resolve the destination.
